@@ -139,11 +139,15 @@ pub open spec fn xor_spec(left: int, right: int, log0: Log, log1: Log, r: Execut
         }
 }
 
+// Verus limitation (measured): after a guarded arm whose body mutates a `&mut` parameter, the fall-through arm
+// loses `final(param) == *param` unless the parameter is touched again; a ghost no-op in a proof block restores it.
+// Hence the one rewrite below (`res => res,` gets a proof-only no-op).
 impl<'i> Xor<'i> {
 //@ lift air/src/execution_step/instructions/xor.rs :: impl <'i> super::ExecutableInstruction<'i> for Xor<'i> :: fn execute
 //@ name Xor::execute
 //@ props C18
 //@ ret r
+//@ rewrite 1 "res => res," => "res => { proof { exec_ctx.log@ = exec_ctx.log@; } res }"
 //@ spec
         ensures xor_spec(self.0.id as int, self.1.id as int, old(exec_ctx).log@, final(exec_ctx).log@, r)
 //@ end
